@@ -217,12 +217,12 @@ def e2e_cases(rng, tier, sources):
                       "order": order, "pad": pad, "_shape": shape, "_tags": sorted(project.tags)})
 
     # 1. every repository test case as a single-file project (+ offsets)
-    tcs = sources if tier != "quick" else rng.sample(sources, 36)
+    tcs = sources if tier != "quick" else rng.sample(sources, 24)
     for (name, path) in tcs:
         p = G.Project([(name, "@" + path)], origin="testcase")
         add(p, 0, [0], rng.choice(pads), [0], rng.choice(pads), "testcase-single")
     # 2. test case files combined into multi-file projects, every position of the target
-    for _ in range(6 if tier == "quick" else 60):
+    for _ in range(4 if tier == "quick" else 60):
         p = G.testcase_project(rng, sources, rng.randint(2, 4))
         n = len(p.files)
         t = rng.randrange(n)
@@ -231,7 +231,7 @@ def e2e_cases(rng, tier, sources):
             rng.shuffle(cap)
             add(p, t, cap, rng.choice(pads), order, rng.choice(pads), "testcase-multi")
     # 3. generated projects with cross-file references: every file as target, every position
-    for k in range(14 if tier == "quick" else 150):
+    for k in range(10 if tier == "quick" else 150):
         n = rng.randint(2, 4)
         p = G.gen_project(rng, n, prefix="R%d_" % k)
         for t in range(n):
@@ -245,7 +245,7 @@ def e2e_cases(rng, tier, sources):
                     cap = keep
                 add(p, t, cap, rng.choice(pads), order, rng.choice(pads), "generated")
     # 4. mixed
-    for k in range(3 if tier == "quick" else 30):
+    for k in range(2 if tier == "quick" else 30):
         p = G.mixed_project(rng, sources, 2, 2, prefix="Mx%d_" % k)
         n = len(p.files)
         t = rng.randrange(n)
@@ -458,7 +458,7 @@ def run(tier, seed, replay):
     ncorpus = len(cases)
     cases += e2e_cases(rng, tier, sources)
     results = run_e2e(binary, cases)
-    same = refused = skipped = 0
+    same = refused = skipped = compared_known = 0
     kinds_seen = set()
     distinct = set()
     diffs = []
@@ -485,6 +485,8 @@ def run(tier, seed, replay):
             skipped += 1
             res.hist("skip_reasons", str(r.get("why"))[:80])
         else:
+            if str(r.get("section", "")).startswith("known:"):
+                compared_known += 1
             diffs.append((c, r))
     res.coverage["evaluations"] = len(cc) + len(dc) + len(cases)
     res.coverage["e2e_cases"] = len(cases)
@@ -496,13 +498,16 @@ def run(tier, seed, replay):
     res.coverage["distinct_nontrivial"] = len(distinct)
     res.coverage["rule"] = ("end-to-end cases whose restored file defines >= 3 different SymbolKinds and whose restore run compared "
                             "equal; distinct by (files, processing order, capture order, offsets, target)")
-    res.obligation("end-to-end: restored state / diagnostics / emitted SV = fresh analysis on %d cases (%d compared, %d refused at capture, %d skipped)"
-                   % (len(cases), same, refused, skipped), not diffs,
-                   "" if not diffs else json.dumps(diffs[0][1])[:400])
+    new_diffs = [d for d in diffs if not ("restore:" + str(d[1].get("section", ""))[len("known:"):] in res.known
+                                          and str(d[1].get("section", "")).startswith("known:"))]
+    res.coverage["e2e_known_finding_cases"] = compared_known
+    res.obligation("end-to-end: restored state / diagnostics / emitted SV = fresh analysis on %d cases (%d equal, %d differing only by a listed known finding, %d refused at capture, %d skipped)"
+                   % (len(cases), same, compared_known, refused, skipped), not new_diffs,
+                   "" if not new_diffs else json.dumps(new_diffs[0][1])[:400])
     # enough cases must actually have been compared (a harness that skips everything shows nothing)
-    res.obligation("end-to-end coverage: >= 60%% of the cases compared", same * 10 >= len(cases) * 6,
-                   "%d of %d" % (same, len(cases)))
-    if same * 10 < len(cases) * 6 and not diffs:
+    res.obligation("end-to-end coverage: >= 60%% of the cases compared", (same + compared_known) * 10 >= len(cases) * 6,
+                   "%d of %d" % (same + compared_known, len(cases)))
+    if (same + compared_known) * 10 < len(cases) * 6 and not diffs:
         res.violation("e2e-coverage", "only %d of %d end-to-end cases could be compared" % (same, len(cases)),
                       {"no_longer_checks": "end-to-end oracle", "verdicts": res.coverage.get("e2e_verdicts")}, no_input=True)
     for c, r in zip(cases[:3], results[:3]):
@@ -514,7 +519,12 @@ def run(tier, seed, replay):
         if sec in seen_sections:
             continue
         seen_sections.add(sec)
-        key = "restore:" + sec.split(":")[-1] if not sec.startswith("sv:") and not sec.startswith("map:") else "restore:" + sec.split(":")[0]
+        if sec.startswith("known:"):
+            key = "restore:" + sec[len("known:"):]
+        elif sec.startswith("sv:") or sec.startswith("map:"):
+            key = "restore:" + sec.split(":")[0]
+        else:
+            key = "restore:" + sec.split(":")[-1]
         if key in res.known:
             res.violation(key, "", {})
             continue
@@ -529,7 +539,7 @@ def run(tier, seed, replay):
         res.violation(key, "after restoring %s the analyzer differs from a fresh analysis in `%s`: %s" % (
             small["files"][small["target"]][0], r2.get("section"), json.dumps(r2.get("detail"))[:200]),
             {"case": inline_files({k: v for k, v in small.items() if not k.startswith("_")}), "result": r2})
-        if len(seen_sections) >= 3:
+        if len(seen_sections) >= 4:
             break
 
     if tr_fail and not res.violations:
